@@ -3,7 +3,7 @@ CONSTANTS
   ErrKinds = {"none", "e0", "e1", "e3", "ei"}
   PayloadCounts = {0, 1, 2, 3}
   Kits = {"none", "lean", "rich"}
-  Profiles = {"A", "B", "C", "D"}
+  Profiles = {"A", "B", "C", "D", "E"}
   MaxLen = 4
   MaxDev = 1
   RunChecker = FALSE
